@@ -124,32 +124,51 @@ def index_dicts(ctx: Ctx, rule: str):
     ctx.check(bool(calls) and calls[0].func.attr == "missing_index", rule, f.key("template-function"), "calls template.missing_index", f"CodeGenerator.missing_index calls template.{calls[0].func.attr if calls else None}", f.where())
 
 
+def _single_comp(v):
+    """the comprehension inside join(sep, [*comp]) / [*comp] / comp, else None"""
+    from sa import av
+
+    if v[0] == "join":
+        v = v[2]
+    v = av._unwrap_seq(v)
+    return v if v[0] == "comp" else None
+
+
 def unpack_pairs(ctx: Ctx, rule: str):
-    """symbol := base[i] uses the element and the index of the same enumerate pair."""
+    """symbol := base[i] uses the element and the index of the same iteration (judged on abstract values: a generator
+    expression, a loop with append, enumerate or a counter all give the same comprehension term)."""
+    from sa import av
+
+    from . import util
+
     cgc = ctx.sm.cls("codegen/base.py", "CodeGenerator")
     for mname, base in (("_state_assignments", "states"), ("_parameter_assignments", "parameters")):
         f = cgc.methods.get(mname)
         ctx.require(f, f"CodeGenerator.{mname} not found")
-        gens = [n for n in ast.walk(f.node) if isinstance(n, (ast.GeneratorExp, ast.ListComp))]
-        ok = False
-        if gens:
-            g = gens[0].generators[0]
-            call = gens[0].elt
-            if isinstance(g.target, ast.Tuple) and isinstance(call, ast.Call) and len(call.args) >= 2:
-                i, s = g.target.elts[0].id, g.target.elts[1].id
-                ok = norm(call.args[0]) == f"{s}.symbol" and norm(call.args[1]) == f"{base}[{i}]"
-        ctx.check(ok, rule, f.key("pair"), f"element.symbol := {base}[index]", f"CodeGenerator.{mname} does not unpack element.symbol from {base}[index of the same element]", f.where())
-    for mname, res in (("initial_state_values", "state_result"), ("initial_parameter_values", "parameter_result")):
+        v = util.value_of(ctx, f)
+        cp = _single_comp(v) if not av.has_unk(v) else None
+        if cp is None:
+            ctx.undecided(rule, f.key("pair"), f"what CodeGenerator.{mname} builds is not understood", f.where())
+            continue
+        d = cp[1]
+        bv = ("bv", d)
+        item = cp[3][0] if len(cp[3]) == 1 else None
+        ok = item is not None and item[0] == "mcall" and item[2] == "_doprint" and len(item[3]) >= 2 and item[3][0] == ("attr", bv, "symbol") and item[3][1] == ("sub", ("sym", f.params[1]), ("idx", d, av.C(0)))
+        ctx.check(ok, rule, f.key("pair"), f"element.symbol := {base}[index]", f"CodeGenerator.{mname} emits {av.show(item)[:120] if item else None}: it does not unpack element.symbol from {base}[position of the same element in the unfiltered sequence]", f.where())
+    for mname in ("initial_state_values", "initial_parameter_values"):
         f = cgc.methods.get(mname)
-        gens = [n for n in ast.walk(f.node) if isinstance(n, ast.ListComp) and isinstance(n.elt, ast.Call) and (dotted(n.elt.func) or "").endswith("_doprint")]
-        ok = False
-        if gens:
-            g = gens[0].generators[0]
-            call = gens[0].elt
-            if isinstance(g.target, ast.Tuple) and len(call.args) >= 2:
-                i, v = g.target.elts[0].id, g.target.elts[1].id
-                ok = isinstance(call.args[0], ast.Subscript) and norm(call.args[0].slice) == i and norm(call.args[1]) == v
-        ctx.check(ok, rule, f.key("pair"), "result[index] := value of the same element", f"CodeGenerator.{mname} does not store each default at result[index of the same element]", f.where())
+        v = util.value_of(ctx, f)
+        tcs = [c for c in av.find_all(v, "mcall") if c[2] in ("init_state_values", "init_parameter_values")]
+        code = dict(tcs[0][4]).get("code") if tcs else None
+        cp = _single_comp(code) if code is not None and not av.has_unk(code) else None
+        if cp is None:
+            ctx.undecided(rule, f.key("pair"), f"what CodeGenerator.{mname} hands to the template as code is not understood", f.where())
+            continue
+        d = cp[1]
+        bv = ("bv", d)
+        item = cp[3][0] if len(cp[3]) == 1 else None
+        ok = item is not None and item[0] == "mcall" and item[2] == "_doprint" and len(item[3]) >= 2 and item[3][0][0] == "sub" and item[3][0][2] == ("idx", d, av.C(0)) and item[3][0][1][0] == "call" and item[3][0][1][1].endswith("IndexedBase") and item[3][1] == ("attr", bv, "value") and not cp[4]
+        ctx.check(ok, rule, f.key("pair"), "result[index] := value of the same element", f"CodeGenerator.{mname} emits {av.show(item)[:120] if item else None}: it does not store each default at result[position of the same element]", f.where())
 
 
 def index_templates(ctx: Ctx, rule: str):
